@@ -246,6 +246,7 @@ def run(tier):
     report.add_all(v1 + v2)
     # E1 part: every request order prefix of length <= depth for one 8-block image, two nodes
     bfs_stats = ota_bfs(report, depth=4 if tier == "quick" else 5)
+    part_c = run_part_c(report, tier)
     stats = s1 + s2
     cov = report.coverage
     cov["evaluations"] = stats["images"] + stats["crc_basis_cases"] + bfs_stats["transitions"]
@@ -261,6 +262,8 @@ def run(tier):
     cov["exhaustive"] = True
     cov["counts"] = dict(stats)
     cov["ota_bfs"] = bfs_stats
+    cov["threaded_update_call"] = part_c
+    cov["schedules"] = part_c["schedules"]
     cov["seed_effect"] = "VERIF_SEED seeds the PRNG content family and the shuffled record order only"
     cov["samples"] = m1[:8]
     report.assumptions = ["independent CRC-16/MODBUS (bitwise) and Intel-HEX writer in mc/ref_codec.py", "a CRC is affine over GF(2): agreement on zero and on a basis decides agreement for all contents of that length for any CRC-like implementation; the four content families guard against a non-affine one"]
@@ -295,7 +298,11 @@ def ota_bfs(report, depth):
             return evs
 
         def roots(self, cfg):
-            return [(rx("1;255;0;0;17;2.2"), rx("2;255;0;0;17;2.2"), ("fw", 9, 1, 2, "F2"), ("fw", (1, 2), 1, 1, "F1"))]
+            return [
+                (rx("1;255;0;0;17;2.2"), rx("2;255;0;0;17;2.2"), ("fw", 9, 1, 2, "F2"), ("fw", (1, 2), 1, 1, "F1")),
+                # node 1 uses smart sleep (child presented, pre-sleep notification seen): it is served like node 2
+                (rx("1;255;0;0;17;2.2"), rx("1;0;0;0;3;"), rx("1;255;3;0;32;500"), rx("2;255;0;0;17;2.2"), ("fw", 9, 1, 2, "F2"), ("fw", (1, 2), 1, 1, "F1")),
+            ]
 
         def new_monitor(self, cfg):
             return GatewayMonitor(PROP, "2.2", {"ota", "exc"})
@@ -306,12 +313,170 @@ def ota_bfs(report, depth):
     return {"states": sub.coverage["states"], "transitions": sub.coverage["transitions"], "completed_depth": depth, "witnesses": sub.coverage["witnesses"]}
 
 
+# -- part (c): an update call on the application thread against the poll thread answering requests (E2) -----
+
+C_SCENARIOS = {
+    # name: (update call nids, lines queued for the pump before the threads start)
+    "update-vs-config-request": ([1], ["1;255;4;0;0;" + words_to_hex(1, 0, 8, 0, 0x0102)]),
+    "update-list-vs-config-requests": ([2, 1], ["1;255;4;0;0;" + words_to_hex(1, 0, 8, 0, 0x0102), "2;255;4;0;0;" + words_to_hex(1, 0, 8, 0, 0x0102)]),
+    "update-vs-config-and-block": ([1], ["1;255;4;0;0;" + words_to_hex(1, 0, 8, 0, 0x0102), "1;255;4;0;2;" + words_to_hex(1, 1, 0)]),
+}
+
+
+def _c_run_one(name, prefix):
+    from .. import sched as S
+    from ..world import FW_IMAGES
+    from .c16 import Conn
+
+    from mysensors.gateway_serial import SerialGateway
+
+    S.install_library_shims()
+    nids, lines = C_SCENARIOS[name]
+    gw = SerialGateway("/dev/verif", protocol_version="2.2")
+    for line in ("1;255;0;0;17;2.2", "2;255;0;0;17;2.2", "3;255;0;0;17;2.2"):
+        gw.logic(line)
+    # (type 1, version 1) is already registered with image F1 because node 3 was updated earlier; nodes 1 and 2
+    # are in no session. The application thread now issues a corrected build F2 under the same key.
+    gw.tasks.ota.make_update([3], 1, 1, FW_IMAGES["F1"])
+    gw.tasks.queue.clear()
+    sched = S.Scheduler(prefix, trace_files=("mysensors/ota.py",), horizon=5000)
+    log = sched.log
+    gw.tasks.transport._connect = lambda tr: None
+    gw.tasks.transport.protocol.connection_made(Conn(log, "c0"))
+    S.PUMP_TASKS[0] = gw.tasks
+    proto = gw.tasks.transport.protocol
+
+    def body():
+        def pump():
+            try:
+                gw.tasks._poll_queue()
+            except Exception as exc:  # pylint: disable=broad-except
+                log.append(("pump-raised", type(exc).__name__, str(exc)[:120], S._site(exc)))
+
+        def controller():
+            try:
+                gw.tasks.ota.make_update(list(nids), 1, 1, FW_IMAGES["F2"])
+            except Exception as exc:  # pylint: disable=broad-except
+                log.append(("call-raised", type(exc).__name__, str(exc)[:120], S._site(exc)))
+
+        for line in lines:
+            proto.handle_line(line)
+        t0 = sched.spawn(pump, "pump")
+        t1 = sched.spawn(controller, "controller")
+        sched.block(lambda: not t1.alive and (not gw.tasks.queue or not t0.alive), ("join",))
+        gw.tasks._stop_event.set()
+        sched.block(lambda: all(not t.alive for t in sched.threads[1:]), ("join-rest",))
+
+    sched.run(body)
+    # sequential epilogue (no scheduling): every node that was given an advert fetches all advertised blocks
+    adverts = {}
+    early_blocks = {}
+    for e in log:
+        if e[0] != "write":
+            continue
+        text = e[2].decode() if isinstance(e[2], bytes) else e[2]
+        f = text.rstrip("\n").split(";")
+        if f[2] == "4" and f[4] == "1":
+            adverts[int(f[0])] = hex_to_words(f[5], 4)
+        if f[2] == "4" and f[4] == "3":
+            early_blocks.setdefault(int(f[0]), []).append(f[5])
+    sched.c09 = []
+    for nid, (ftype, fver, blocks, crc) in adverts.items():
+        data = b""
+        for blk in range(blocks):
+            reply = gw.logic(f"{nid};255;4;0;2;" + words_to_hex(ftype, fver, blk))
+            if reply is None:
+                sched.c09.append((nid, f"block {blk} of {blocks} advertised blocks not served"))
+                break
+            payload = reply.rstrip("\n").split(";")[5]
+            data += bytes.fromhex(payload[12:])
+        else:
+            if len(data) != 16 * blocks or crc16_modbus(data) != crc:
+                sched.c09.append((nid, f"advert blocks={blocks} crc={crc:#06x} but served {len(data)} bytes with crc {crc16_modbus(data):#06x}"))
+            for early in early_blocks.get(nid, []):
+                _t, _v, blk = hex_to_words(early[:12], 3)
+                if bytes.fromhex(early[12:]) != data[16 * blk : 16 * blk + 16]:
+                    sched.c09.append((nid, f"block {blk} served during the update call differs from the advertised image"))
+    return sched
+
+
+def _c_part(args):
+    import collections
+
+    from .. import sched as S
+
+    name, bound, roots, deadline, limit = args
+    res = S.Result()
+    found = {}
+    outcomes = collections.Counter()
+
+    def check(sched):
+        outcomes[(tuple(e[2] for e in sched.log if e[0] == "write"), tuple(sched.c09))] += 1
+        npre = S.preemptions(sched.points, len(sched.points))
+        for nid, msg in sched.c09:
+            sig = f"advert-vs-served|threaded|{name}"
+            if sig not in found or npre < found[sig][2]:
+                found[sig] = (f"node {nid}: {msg} (update call on another thread while the poll thread answered the request)", list(sched.choices), npre)
+        for e in sched.log:
+            if e[0] in ("pump-raised", "call-raised"):
+                found.setdefault(f"update-call-vs-pump|{name}|{e[0]}|{e[1]}@{e[3]}", (f"{e[1]}: {e[2]} at {e[3]}", list(sched.choices), npre))
+        if sched.problem in ("deadlock", "horizon"):
+            found.setdefault(f"update-call-vs-pump|{name}|{sched.problem}", (f"execution ended in {sched.problem}", list(sched.choices), 0))
+
+    complete, leftover = S.explore(lambda p: _c_run_one(name, p), check, bound, res, deadline=deadline, roots=roots, expand_limit=limit)
+    return name, complete, leftover, res.executions, res.points, found, len(outcomes)
+
+
+def run_part_c(report, tier):
+    import multiprocessing
+    import time
+
+    from ..common import NPROC, Violation
+
+    bound = 1 if tier == "quick" else 2
+    deadline = time.time() + (60 if tier == "quick" else 900)
+    ctx = multiprocessing.get_context("fork")
+    per = {}
+    total = {"executions": 0, "points": 0}
+
+    def add(name, found):
+        for sig, (msg, choices, npre) in found.items():
+            report.add(Violation(PROP, sig, f"{msg} (schedule with {npre} preemption(s))", {"kind": "schedule", "check": PROP, "scenario": name, "choices": choices}))
+
+    with ctx.Pool(NPROC) as pool:
+        parts = []
+        for name, complete, leftover, execs, points, found, nout in pool.imap(_c_part, [(n, bound, None, deadline, 20) for n in C_SCENARIOS]):
+            per[name] = {"schedules": execs, "complete": complete, "distinct_outcomes": nout}
+            total["executions"] += execs
+            total["points"] += points
+            add(name, found)
+            chunks = [leftover[i::6] for i in range(6)]
+            parts += [(name, bound, ch, deadline, None) for ch in chunks if ch]
+        for name, complete, leftover, execs, points, found, nout in pool.imap_unordered(_c_part, parts):
+            per[name]["schedules"] += execs
+            per[name]["complete"] = per[name]["complete"] and complete
+            per[name]["distinct_outcomes"] = max(per[name]["distinct_outcomes"], nout)
+            total["executions"] += execs
+            total["points"] += points
+            add(name, found)
+    return {"preemption_bound": bound, "schedules": total["executions"], "scheduling_decisions": total["points"], "scenarios": per,
+            "rule": "application thread calling make_update (a corrected image under an already registered type/version) against the real poll thread answering queued config/block requests of the same nodes; every schedule up to the preemption bound at line granularity of ota.py; afterwards every node that was given an advert fetches all advertised blocks sequentially; oracle: served bytes have the advertised length and CRC"}
+
+
 def replay(data):
     case = data["replay"].get("case")
     logging.disable(logging.CRITICAL)
     if data["replay"].get("kind") == "history":
         print("history case: re-running the check")
         return run("quick")
+    if data["replay"].get("kind") == "schedule":
+        sched = _c_run_one(data["replay"]["scenario"], list(data["replay"]["choices"]))
+        print(f"schedule replayed ({len(sched.points)} points); writes: {[e[2] for e in sched.log if e[0] == 'write']}; findings: {sched.c09}")
+        if sched.c09:
+            print(f"VIOLATION property={PROP} replay=<replayed>")
+            return 1
+        print("did not reproduce on the current tree")
+        return 0
     if case and case[0] == "crc":
         viols, _, _ = check_crc([(case[1], case[2])])
     else:
